@@ -4,7 +4,7 @@
    specification. *)
 From Coq Require Import String.
 From OCI Require Export Base.Outcome Model.Listing Model.ListingSpec.
-From OCI Require Import Proofs.Seq Proofs.Listing Proofs.ListingStack.
+From OCI Require Import Proofs.Seq Proofs.Listing Proofs.ListingStack Proofs.ListingFast.
 
 (* one yield call as the harness saw it *)
 Inductive entry :=
@@ -19,6 +19,49 @@ Record case := {
   c_start : bytes;
   c_runs : list (N * list entry)     (* k, the log of yield calls *)
 }.
+
+(* ---------------- vocabulary of the case files for long listings ----------------
+
+   The server's built-in page cap (10000) and client page sizes above it only show with more
+   than ten thousand names.  A case file does not spell such a listing out (twice: in the
+   registry contents and in every log); it names a FAMILY of names
+
+     fam pre w lo cnt  =  pre ++ the decimal numeral of i padded to w digits,  i = lo .. lo+cnt-1
+
+   (the harness fills the real registry with fmt.Sprintf("%s%0*d", pre, w, i)), and the log of
+   yield calls as runs "these members of the family, each accepted" ([took_fam]) between
+   literally written entries.  These are plain functions producing plain lists: the case
+   is the value they compute, and model_agrees / obs_ok see nothing but that value. *)
+
+(* a decimal counter, least significant digit first *)
+Fixpoint dinc (d : list N) : list N :=
+  match d with
+  | [] => []
+  | c :: d' => if (c =? 57)%N then 48%N :: dinc d' else N.succ c :: d'
+  end.
+
+Fixpoint digits_lsd (w : nat) (i : N) : list N :=
+  match w with
+  | O => []
+  | S w' => (48 + i mod 10)%N :: digits_lsd w' (i / 10)%N
+  end.
+
+Fixpoint fam_from (pre : bytes) (d : list N) (cnt : nat) : list bytes :=
+  match cnt with
+  | O => []
+  | S c => (pre ++ rev_append d []) :: fam_from pre (dinc d) c
+  end.
+
+Definition fam (pre : bytes) (w : nat) (lo cnt : N) : list bytes :=
+  fam_from pre (digits_lsd w lo) (N.to_nat cnt).
+
+Definition tookE (x : bytes) : entry := EItem x true.
+
+(* the members lo .. lo+cnt-1 of a family, each handed over and accepted *)
+Definition took_fam (pre : bytes) (w : nat) (lo cnt : N) : list entry := map tookE (fam pre w lo cnt).
+
+(* repositories that all look the same *)
+Definition repos_of (names : list bytes) (r : mrepo) : memreg := map (fun n => (n, r)) names.
 
 Definition entry_eqb (a b : entry) : bool :=
   match a, b with
@@ -96,12 +139,13 @@ Definition run_ok (k : stack) (q : query) (start : bytes) (run : N * list entry)
 
 Definition log_eqb (a b : list entry) : bool := list_eqb entry_eqb a b.
 
-Definition model_agrees (c : case) : bool :=
+(* the two judgements, as they read *)
+Definition model_agrees_lit (c : case) : bool :=
   stack_wfb (c_stack c)
   && forallb (fun run => log_eqb (model_log (c_stack c) (c_query c) (c_start c) (fst run)) (snd run))
              (c_runs c).
 
-Definition obs_ok (c : case) : bool :=
+Definition obs_ok_lit (c : case) : bool :=
   stack_wfb (c_stack c)
   && forallb (run_ok (c_stack c) (c_query c) (c_start c)) (c_runs c).
 
@@ -112,6 +156,149 @@ Definition nontrivial (c : case) : bool :=
   | FNo => (2 <=? length (filter (after (c_query c) (c_start c)) (names (c_stack c) (c_query c))))%nat
   | _ => true
   end.
+
+(* ---------------- the same two judgements, computed so that long listings are affordable ----------------
+
+   [model_agrees] and [obs_ok] below are what the case files evaluate.  They have the same
+   value as the literal definitions above on EVERY case (model_agrees_eq, obs_ok_eq); the
+   difference is the cost: well-formedness by sorting, inclusions by one pass over sorted lists
+   (Proofs/ListingFast.v), and - for a well-formed stack that must not fail and lists more than
+   [long_listing] names - the model's log from its closed form (listing_closed) instead of by
+   running the model, whose literal len / append bookkeeping is quadratic. *)
+
+Definition long_listing : nat := 500.
+
+(* is the model's log taken from the closed form? *)
+Definition closed_form (k : stack) (q : query) (start : bytes) : bool :=
+  match fails k q with
+  | FNo => (long_listing <? length (filter (after q start) (names k q)))%nat
+  | _ => false
+  end.
+
+(* ex: the names the closed form lists (computed once per case) *)
+Definition model_log_fast (closed : bool) (ex : list bytes) (k : stack) (q : query) (start : bytes) (n : N) : list entry :=
+  if closed then map entry_of (trace_of ex None (stop_at n) 0) else model_log k q start n.
+
+(* run_ok with the inclusions by one pass over sorted lists ([walk]); fc and want - the names
+   after the start point, sorted - are computed once per case *)
+Definition run_ok_with (fc : fclass) (want : list bytes) (run : N * list entry) : bool :=
+  let (n, log) := run in
+  let items := log_items log in
+  log_protocol log && log_answers n 1 log
+  && (if ascending items then
+        walk items want
+        && match fc with
+           | FNo =>
+               match last_entry log with
+               | None => walk want items
+               | Some (EItem x false) => walk (filter (fun w => bleb w x) want) items
+               | Some (EItem _ true) => walk want items
+               | Some _ => false
+               end
+           | f =>
+               match last_entry log with
+               | Some (EErr c _) =>
+                   match f with
+                   | FNotFound => ecode_eqb c NAME_UNKNOWN && match items with [] => true | _ => false end
+                   | _ => true
+                   end
+               | Some (EItem _ false) => true
+               | _ => false
+               end
+           end
+      else false).
+
+Definition model_agrees (c : case) : bool :=
+  let k := c_stack c in
+  let q := c_query c in
+  let start := c_start c in
+  let closed := closed_form k q start in
+  let ex := if closed then expected k q start else [] in
+  stack_wfb_fast k
+  && forallb (fun run => log_eqb (model_log_fast closed ex k q start (fst run)) (snd run)) (c_runs c).
+
+Definition obs_ok (c : case) : bool :=
+  let k := c_stack c in
+  let q := c_query c in
+  let fc := fails k q in
+  let want := norm (filter (after q (c_start c)) (names k q)) in     (* sorted once *)
+  stack_wfb_fast k && forallb (run_ok_with fc want) (c_runs c).
+
+Lemma model_log_fast_eq k q start n :
+  stack_wfb k = true ->
+  model_log_fast (closed_form k q start) (if closed_form k q start then expected k q start else []) k q start n
+  = model_log k q start n.
+Proof.
+  intros Hw. unfold model_log_fast, closed_form. destruct (fails k q) eqn:Hf; try reflexivity.
+  destruct (long_listing <? _)%nat; [|reflexivity].
+  unfold model_log. now rewrite (listing_closed k q start N (stop_at n) 0%N Hw Hf).
+Qed.
+
+Lemma forallb_ext_in {A} (f g : A -> bool) l : (forall a, In a l -> f a = g a) -> forallb f l = forallb g l.
+Proof.
+  induction l as [|a l IH]; intros H; cbn; [reflexivity|].
+  rewrite (H a (or_introl eq_refl)), IH; auto. intros b Hb. apply H. now right.
+Qed.
+
+Lemma forallb_same_members {A} (f : A -> bool) l1 l2 :
+  (forall x, In x l1 <-> In x l2) -> forallb f l1 = forallb f l2.
+Proof.
+  intros H. destruct (forallb f l2) eqn:E.
+  - rewrite forallb_forall in *. intros x Hx. apply E. now apply H.
+  - destruct (forallb f l1) eqn:E1; [|reflexivity].
+    assert (forallb f l2 = true); [|congruence].
+    rewrite forallb_forall in *. intros x Hx. apply E1. now apply H.
+Qed.
+
+Lemma mem_bytes_same x l1 l2 : (forall y, In y l1 <-> In y l2) -> mem_bytes x l1 = mem_bytes x l2.
+Proof.
+  intros H. destruct (mem_bytes x l2) eqn:E.
+  - apply mem_bytes_In. apply H. now apply mem_bytes_In.
+  - destruct (mem_bytes x l1) eqn:E1; [|reflexivity].
+    apply mem_bytes_In in E1. apply H in E1. apply mem_bytes_In in E1. congruence.
+Qed.
+
+Lemma filter_same_members {A} (p : A -> bool) l1 l2 :
+  (forall x, In x l1 <-> In x l2) -> forall x, In x (filter p l1) <-> In x (filter p l2).
+Proof. intros H x. rewrite !filter_In, H. tauto. Qed.
+
+Lemma run_ok_with_eq k q start run :
+  run_ok_with (fails k q) (norm (filter (after q start) (names k q))) run = run_ok k q start run.
+Proof.
+  destruct run as [n log]. unfold run_ok_with, run_ok.
+  set (W := filter (after q start) (names k q)). set (items := log_items log).
+  assert (HW : forall x, In x (norm W) <-> In x W) by (intros x; apply norm_In).
+  rewrite <- !andb_assoc. f_equal. f_equal.
+  destruct (ascending items) eqn:A; [|reflexivity]. cbn [andb].
+  assert (Hi : norm items = items) by (apply norm_id; now apply ascending_spec).
+  assert (walk items (norm W) = forallb (fun x => mem_bytes x W) items) as ->.
+  { rewrite <- Hi at 1. rewrite <- (norm_norm W). fold (incl_b items (norm W)). rewrite incl_b_eq.
+    apply forallb_ext_in. intros x _. now apply mem_bytes_same. }
+  f_equal.
+  assert (Hall : walk (norm W) items = forallb (fun x => mem_bytes x items) W).
+  { rewrite <- Hi at 1. rewrite <- (norm_norm W). fold (incl_b (norm W) items). rewrite incl_b_eq.
+    now apply forallb_same_members. }
+  destruct (fails k q); try reflexivity.
+  destruct (last_entry log) as [[x [|]|c a|w]|]; try reflexivity; try exact Hall.
+  rewrite forallb_impl_filter.
+  rewrite <- Hi at 1.
+  rewrite <- (norm_id (filter (fun w => bleb w x) (norm W))) by (apply ssorted_filter, norm_ssorted).
+  fold (incl_b (filter (fun w => bleb w x) (norm W)) items). rewrite incl_b_eq.
+  apply forallb_same_members. now apply filter_same_members.
+Qed.
+
+Theorem model_agrees_eq c : model_agrees c = model_agrees_lit c.
+Proof.
+  unfold model_agrees, model_agrees_lit. cbv zeta. rewrite stack_wfb_fast_eq.
+  destruct (stack_wfb (c_stack c)) eqn:Hw; [|reflexivity]. cbn [andb].
+  apply forallb_ext_in. intros run _. now rewrite model_log_fast_eq.
+Qed.
+
+Theorem obs_ok_eq c : obs_ok c = obs_ok_lit c.
+Proof.
+  unfold obs_ok, obs_ok_lit. cbv zeta. rewrite stack_wfb_fast_eq. f_equal.
+  apply forallb_ext_in. intros run _. apply run_ok_with_eq.
+Qed.
 
 (* ---------------- corr_sound ---------------- *)
 
@@ -155,8 +342,6 @@ Proof.
     + apply IH.
     + reflexivity.
 Qed.
-
-Definition tookE (x : bytes) : entry := EItem x true.
 
 Lemma map_entry_took l : map entry_of (map took l) = map tookE l.
 Proof. rewrite map_map. reflexivity. Qed.
@@ -258,14 +443,17 @@ Qed.
 
 (* model_agrees c -> obs_ok c: what the model predicts for a well-formed stack satisfies the
    specification (by the stack theorem), and the observation equals the prediction *)
-Lemma corr_sound c : model_agrees c = true -> obs_ok c = true.
+Lemma corr_sound_lit c : model_agrees_lit c = true -> obs_ok_lit c = true.
 Proof.
-  unfold model_agrees, obs_ok. intros H. apply andb_true_iff in H as [Hw Hruns].
+  unfold model_agrees_lit, obs_ok_lit. intros H. apply andb_true_iff in H as [Hw Hruns].
   rewrite Hw. cbn [andb]. apply forallb_forall. intros [n log] Hrun.
   rewrite forallb_forall in Hruns. specialize (Hruns _ Hrun). cbn [fst snd] in Hruns.
   apply log_eqb_eq in Hruns. subst log.
   unfold model_log. apply run_ok_lgood. now apply stack_listing.
 Qed.
+
+Lemma corr_sound c : model_agrees c = true -> obs_ok c = true.
+Proof. rewrite model_agrees_eq, obs_ok_eq. apply corr_sound_lit. Qed.
 
 Definition mismatches (cs : list case) : list (N * bool) :=
   bad_from 0 (fun c => if model_agrees c then None else Some (obs_ok c)) cs.
